@@ -62,6 +62,8 @@ func execPure(work string, cmd string, a []string) (string, bool) {
 // and by the shrinker): everything after " = " is ignored and recomputed.
 func suiteExec(work string) {
 	os.MkdirAll(work, 0755)
+	st := NewSt(work)
+	nutsdb.VerifObserver = st.observer
 	sc := bufio.NewScanner(os.Stdin)
 	sc.Buffer(make([]byte, 1<<20), 1<<28)
 	for sc.Scan() {
@@ -79,6 +81,9 @@ func suiteExec(work string) {
 			emit("%s = %s", call, r)
 			continue
 		}
-		emit("%s = UNSUPPORTED", call)
+		if t[0] == "now" {
+			continue
+		}
+		st.run(call)
 	}
 }
